@@ -87,12 +87,17 @@ Definition batch_no (o : op) (tag : Z) : Z :=
   | _ => 0
   end.
 
+Definition keeper_ty (o : op) := a_keeper_ty (o_assocs o).
+
+(* phases: own before 0, belongs-to 3/6, has-many values 9/12 (their own belongs-to values 10/11), has-many
+   pointers 15/18, own after 21; CreateInBatches: 24 per batch *)
 Definition rank (o : op) (e : hev) : Z :=
   let h := fst (fst e) in let t := snd (fst e) in
-  if t =? ty_id (o_ty o) then 8 * batch_no o (snd e) + (if is_before h then 0 else 7)
-  else if t =? ty_id (boss_ty o) then (if is_before h then 1 else 2)
-  else if t =? ty_id (kid_ty o) then (if is_before h then 3 else 4)
-  else if t =? ty_id (pet_ty o) then (if is_before h then 5 else 6)
+  if t =? ty_id (o_ty o) then 24 * batch_no o (snd e) + (if is_before h then 0 else 21)
+  else if negb (is_nil (a_keepers (o_assocs o))) && (t =? ty_id (keeper_ty o)) then (if is_before h then 10 else 11)
+  else if t =? ty_id (boss_ty o) then (if is_before h then 3 else 6)
+  else if t =? ty_id (kid_ty o) then (if is_before h then 9 else 12)
+  else if t =? ty_id (pet_ty o) then (if is_before h then 15 else 18)
   else 99.
 
 Fixpoint nondecreasing (l : list Z) : bool :=
@@ -125,6 +130,7 @@ Definition owed (o : op) (mem kids pets : list Z) : list (ty * pipe * Z) :=
          ++ map (fun r => (boss_ty o, PiCreate, m_tag r)) (a_boss (o_assocs o))
          ++ map (fun r => (kid_ty o, PiCreate, m_tag r)) (a_kids (o_assocs o))
          ++ map (fun r => (pet_ty o, PiCreate, m_tag r)) (a_pets (o_assocs o))
+         ++ map (fun r => (keeper_ty o, PiCreate, m_tag r)) (a_keepers (o_assocs o))
   end.
 
 Definition sumz (l : list Z) : Z := fold_right Z.add 0 l.
@@ -238,6 +244,7 @@ Definition spec_holds (c : case) : bool :=
         && bracket_ok (ty_id (boss_ty o)) TBosses false (ob_tr c)
         && bracket_ok (ty_id (kid_ty o)) TKids false (ob_tr c)
         && bracket_ok (ty_id (pet_ty o)) TPets false (ob_tr c)
+        && (is_nil (a_keepers (o_assocs o)) || bracket_ok (ty_id (keeper_ty o)) TKeepers false (ob_tr c))
         && match failing with
            | [] =>
              (* each applicable hook exactly once per in-memory record, in the documented order *)
